@@ -61,9 +61,12 @@ VerdictEv ==
   IF Ev.oc # "ok" THEN {"FINDER_TOTAL"}
   ELSE CASE Ev.kind = "phase" -> Viol("EVENT_PHASE_LONGITUDE", WithinMod(Ev.dl, FromInt(Ev.tgt), 360, Dec(6, 2)))
          [] Ev.kind = "dist" -> Viol("EVENT_DISTANCE_EXTREMAL", IF Ev.v = 1 THEN MinInside(Ev.s) ELSE MaxInside(Ev.s))
+                           \* sharp: the slope changes sign between r - 0.25 d and r + 0.25 d (sl sr = short central differences there)
+                           \cup Viol("EVENT_DISTANCE_WITHIN_TOL", IF Ev.v = 1 THEN MinWithinTol(Ev.sl, Ev.sr) ELSE MaxWithinTol(Ev.sl, Ev.sr))
          [] Ev.kind = "node" -> Viol("EVENT_LATITUDE_ZERO", Le(Abs(Ev.s[3]), Dec(2, 2)))
                            \cup Viol("EVENT_NODE_DIRECTION", IF Ev.v = 1 THEN Lt(Ev.s[2], Ev.s[4]) ELSE Gt(Ev.s[2], Ev.s[4]))
          [] Ev.kind = "decl" -> Viol("EVENT_DECLINATION_EXTREMAL", IF Ev.v = 1 THEN MaxInside(Ev.s) ELSE MinInside(Ev.s))
+                           \cup Viol("EVENT_DECLINATION_WITHIN_TOL", IF Ev.v = 1 THEN MaxWithinTol(Ev.sl, Ev.sr) ELSE MinWithinTol(Ev.sl, Ev.sr))
                            \cup Viol("EVENT_DECLINATION_REPORTED", Within(Ev.rep, Ev.s[3], Dec(15, 2)))
          [] OTHER -> {"UNKNOWN_KIND"}
 
